@@ -28,6 +28,7 @@ let parse_op (s : string) : api =
   | ["X"; o] -> ADecrypt (nat (int_of_string o))
   | ["B"; o] -> AToByteStream (nat (int_of_string o))
   | ["N"; o] -> AToNaluSample (nat (int_of_string o))
+  | ["A"; o] -> ATouch (nat (int_of_string o))
   | _ -> failwith ("bad op " ^ s)
 
 let parse_prog (s : string) : api list =
@@ -62,12 +63,29 @@ let () =
         if L.length obs <> L.length model then Printf.printf "MISMATCH %s length\n" id
         else begin
           let bad = ref [] and eff = ref 0 and over = ref 0 in
+        (* objects whose byte fields were (partly) replaced by fresh arrays through ATouch, and objects derived from
+           them: the table's payload location is a may-alias statement for these, "own" may be observed *)
+        let loose = ref [] in
+        let progv = Array.of_list p in
+        let track i =
+          if i < Array.length progv then begin
+            let dst d = int_of_nat d in
+            let rm d = loose := L.filter (fun x -> x <> d) !loose in
+            match progv.(i) with
+            | ATouch o -> if not (L.mem (dst o) !loose) then loose := dst o :: !loose
+            | ASamples (o, d) | ADecryptInit (o, d) | AInitProtect (o, d) ->
+              if L.mem (dst o) !loose then (if not (L.mem (dst d) !loose) then loose := dst d :: !loose) else rm (dst d)
+            | ADecode (_, d) | ADecodeSR (_, d) | AInfo (_, d) | AEncode (_, d) | AEncodeSW (_, d) -> rm (dst d)
+            | _ -> ()
+          end in
           L.iteri (fun i (o, (l, ws)) ->
               match split_on '/' o with
               | [cls; alias; changed] ->
                 let ws = L.map int_of_nat ws in
                 let ch = ints_of_csv changed in
-                let lean_ok = (alias = "own" && (match l with Input k -> L.mem (int_of_nat k) lean | _ -> false)) in
+                track i;
+                let target = if i < Array.length progv then int_of_nat (api_target progv.(i)) else -1 in
+                let lean_ok = (alias = "own" && (match l with Input k -> L.mem (int_of_nat k) lean || L.mem target !loose | _ -> false)) in
                 if cls = "ok" && lean_ok then incr over;
                 if cls = "ok" && alias <> alias_string l && not lean_ok then
                   bad := Printf.sprintf "op%d:alias observed=%s model=%s" i alias (alias_string l) :: !bad;
